@@ -286,7 +286,12 @@ pub fn gen_universe(w: &World, rng: &mut Rng) -> Universe {
         })
         .collect();
     let n_paths = 4 + rng.usize_below(7);
-    let n_unknown = 1 + rng.usize_below(3.min(n_paths - 1));
+    // usually 1-3 unknown paths; one universe in six is mostly unknown paths
+    let n_unknown = if rng.chance(1, 6) {
+        (n_paths - 1).min(4 + rng.usize_below(3))
+    } else {
+        1 + rng.usize_below(3.min(n_paths - 1))
+    };
     let mut paths = rng.subset(&single, (n_paths - n_unknown).min(single.len()));
     // unknown paths: unrelated ones and near misses of registry paths (suffix, extension,
     // prefix, sibling module, different case, a prelude type spelled with its std path)
